@@ -29,6 +29,9 @@ type binCase struct {
 	MaxArg    string `json:"maxarg"`    // SOCKS arg max= ("<absent>" = not sent)
 	Broker    string `json:"broker"`    // how the broker refuses: noproxies | 503 | garbage | slow | reset
 	HoldSec   int    `json:"holdsec"`   // how long the SOCKS connection stays open
+	// SocksReset: the SOCKS client sends its CONNECT request and resets the TCP connection at once, before it
+	// has read the reply (tor going away with unread data): the reply cannot be delivered
+	SocksReset bool `json:"socksreset,omitempty"`
 }
 
 var clientBin string
@@ -188,6 +191,42 @@ wait:
 	if c.MaxArg != "<absent>" {
 		sargs = append(sargs, "max="+c.MaxArg)
 	}
+	if c.SocksReset {
+		// handshake without authentication, CONNECT request, then RST
+		rc, derr := net.DialTimeout("tcp", socksAddr, 5*time.Second)
+		if derr != nil {
+			return fmt.Errorf("harness: %v", derr)
+		}
+		rc.Write([]byte{5, 1, 0})
+		var r2 [2]byte
+		io.ReadFull(rc, r2[:])
+		rc.Write([]byte{5, 1, 0, 1, 192, 0, 2, 99, 0, 80})
+		if tc, ok := rc.(*net.TCPConn); ok {
+			tc.SetLinger(0)
+		}
+		rc.Close()
+		// whatever the client had started for this connection must wind down: attempts in flight may
+		// complete, afterwards no poll
+		time.Sleep(6 * time.Second)
+		before := atomic.LoadInt64(&polls)
+		time.Sleep(23 * time.Second)
+		after := atomic.LoadInt64(&polls)
+		select {
+		case e := <-exited:
+			return fmt.Errorf("the client process terminated after a SOCKS connection was reset before the reply (%v)", e)
+		default:
+		}
+		if after != before {
+			return fmt.Errorf("the client kept polling the broker after its SOCKS connection had been reset before the reply: %d polls in the following 23 s (-ice %q, broker %q)", after-before, c.IceFlag, c.Broker)
+		}
+		cmd.Process.Signal(syscall.SIGTERM)
+		select {
+		case <-exited:
+		case <-time.After(15 * time.Second):
+			return fmt.Errorf("the client did not exit within 15 s of SIGTERM")
+		}
+		return nil
+	}
 	conn, err := socksConnect(socksAddr, strings.Join(sargs, ";"))
 	alive := func(when string) error {
 		select {
@@ -257,12 +296,13 @@ func TestVerifC15Binary(t *testing.T) {
 			Broker:  rapid.SampledFrom([]string{"noproxies", "503", "garbage", "slow", "reset"}).Draw(rt, "broker"),
 			HoldSec: rapid.SampledFrom([]int{2, 13, 13, 24}).Draw(rt, "hold"),
 		}
+		c.SocksReset = rapid.IntRange(0, 3).Draw(rt, "socksreset") == 0
 		eff := c.IceFlag
 		if c.IceArg != "<absent>" {
 			eff = c.IceArg
 		}
 		nt := eff == "<absent>" || !strings.HasPrefix(eff, "stun:127")
-		vstat.Run(uBin, t, rt, c, nt, []string{"broker=" + c.Broker, fmt.Sprintf("effective ice=%q", eff)}, runBin)
+		vstat.Run(uBin, t, rt, c, nt, []string{"broker=" + c.Broker, fmt.Sprintf("effective ice=%q", eff), fmt.Sprintf("socks reset before reply=%v", c.SocksReset)}, runBin)
 	})
 }
 
